@@ -390,7 +390,7 @@ def gen_world(seed, profile="greedy", opts=None):
                               for n in g["nodes"])
     timeout = 50 * max(total_rt, 4) + 100
     sim = {"loop_timeout": timeout,
-           "scheduler_frequency": r.choice([-1, -1, -1, 0, 1, 2, 3, 5, 10])}
+           "scheduler_frequency": r.choice(opts.get("frequencies") or [-1, -1, -1, 0, 1, 2, 3, 5, 10])}
     for g in graphs:
         if g["release"]["type"] == "periodic":
             # keep periodic bounded: horizon = a few periods
@@ -429,9 +429,10 @@ def gen_policy(r, profile, opts, flags):
                 "p_future": r.choice([0.0, 0.2, 0.5]), "p_omit": r.choice([0.0, 0.1]),
                 "p_full": r.choice([0.0, 0.3]), "p_batch": r.choice([0.0, 0.0, 0.3, 0.7])}
     if profile == "plan":
-        name = opts.get("policy") or r.choice(["ILP", "ILP", "TetriSchedGurobi", "TetriSchedGurobi",
-                                                "TetriSchedCPLEX"])
-        pol = {"name": name, "runtime": 0, "lookahead": r.choice([0, 0, 2, 5, 20]),
+        name = opts.get("policy") or r.choice(opts.get("policies") or
+                                              ["ILP", "ILP", "TetriSchedGurobi", "TetriSchedGurobi",
+                                               "TetriSchedCPLEX"])
+        pol = {"name": name, "runtime": 0, "lookahead": r.choice(opts.get("lookaheads") or [0, 0, 2, 5, 20]),
                "retract": r.random() < 0.4, "enforce_deadlines": r.random() < 0.6,
                "branch_policy": r.choice(["worst", "best", "all", "max"])}
         if name == "ILP":
